@@ -529,6 +529,7 @@ func C05(c *core.Ctx) {
 		c.Count("sam_groups_evaluated", nSam)
 		c.Ob("R1/sam-form/indels-of-record-groups", len(badSam) == 0, funcPos(c, "pkg/sam", "blockToSeqPair"), "%s", first(badSam, 3))
 	}
+	checkSamWorkerStateless(c, tabs, "R1")
 	// gap code agreement
 	gapCodes := gapLiterals(c)
 	var badCodes []string
@@ -538,7 +539,7 @@ func C05(c *core.Ctx) {
 		}
 	}
 	c.Ob("R2/gap-code-literals", len(badCodes) == 0, pos, "%s", first(badCodes, 4))
-	c.Floor("R2/gap-code-literals", len(gapCodes), 5)
+	c.Floor("R2/gap-code-literals", len(gapCodes), 3)
 }
 
 type gapLit struct {
@@ -546,7 +547,7 @@ type gapLit struct {
 	val int64
 }
 
-// gapLiterals: integer literals compared (==, !=) with an element of a byte slice in pkg/variants.
+// gapLiterals: integer constants (literal or named, by value) compared (==, !=) with a byte in pkg/variants.
 func gapLiterals(c *core.Ctx) []gapLit {
 	p := c.Pkgs["pkg/variants"]
 	if p == nil {
@@ -554,9 +555,8 @@ func gapLiterals(c *core.Ctx) []gapLit {
 	}
 	var out []gapLit
 	for _, file := range p.Syntax {
-		inspectBinary(file, func(pos token.Pos, lit string) {
-			var v int64
-			if _, err := fmt.Sscanf(lit, "%d", &v); err == nil && v > 16 {
+		inspectBinary(file, p.Syntax, p.TypesInfo, func(pos token.Pos, v int64) {
+			if v > 16 {
 				out = append(out, gapLit{pos, v})
 			}
 		})
@@ -653,8 +653,21 @@ func C11(c *core.Ctx) {
 	}
 	c.Count("pairs_evaluated", n)
 	c.Ob("R1/workers-agree-on-every-pair", len(bad) == 0, samW.Pos(), "%s", first(bad, 3))
-	// several queries through ONE worker: no state may leak from one query to the next. The SAM worker gets pairs of
-	// equal width whose insertions sit at different reference positions; each result must equal the single-query result.
+	checkSamWorkerStateless(c, tabs, "R1")
+	c11Structure(c)
+}
+
+// checkSamWorkerStateless: several queries through ONE getVariantsSam worker; no state may leak from one query to
+// the next. The worker gets pairs of equal width whose insertions sit at different reference positions; each result
+// must equal the single-query result. (Shared by C11 and C05: a query's list depends only on its own pair.)
+func checkSamWorkerStateless(c *core.Ctx, tabs *Tables, rule string) {
+	samW := c.LookupFunc("pkg/sam", "getVariantsSam")
+	pairT := namedType(c, "pkg/sam", "alignPair")
+	if samW == nil || pairT == nil {
+		c.Und(rule+"/sam-worker/no-state-between-queries", token.NoPos, "UNRESOLVED anchor sam.getVariantsSam")
+		return
+	}
+	sets := variantRegionSets()
 	{
 		var badB []string
 		regions := sets[0]
@@ -700,7 +713,6 @@ func C11(c *core.Ctx) {
 				}
 			}
 		}
-		c.Ob("R1/sam-worker/no-state-between-queries", len(badB) == 0, samW.Pos(), "%s", first(badB, 3))
+		c.Ob(rule+"/sam-worker/no-state-between-queries", len(badB) == 0, samW.Pos(), "%s", first(badB, 3))
 	}
-	c11Structure(c)
 }
